@@ -255,10 +255,16 @@ func locate(input []byte, taps [][]byte, maxf int) (cuts []int, starts []int, am
 		start := pos
 		rest := input[min(pos, len(input)):]
 		if !bytes.HasPrefix(rest, m) && k > 0 && len(taps[k-1]) == maxf {
-			if i := bytes.Index(rest, m); i >= 0 {
+			// bytes were thrown away behind a full frame: find where this hand-off starts.  Hand-offs that
+			// follow it without another truncation are contiguous with it, so they are searched for together.
+			needle := append([]byte{}, m...)
+			for j := k + 1; j < len(taps) && len(needle) < 64 && len(taps[j-1]) != maxf; j++ {
+				needle = append(needle, taps[j]...)
+			}
+			if i := bytes.Index(rest, needle); i >= 0 {
 				start = pos + i
-				if len(m) < 64 && bytes.Contains(input[min(start+1, len(input)):], m) {
-					ambiguous = fmt.Sprintf("hand-off %d (%d bytes) matches the input at more than one place behind a truncated frame", k, len(m))
+				if len(needle) < 64 && bytes.Contains(input[min(start+1, len(input)):], needle) {
+					ambiguous = fmt.Sprintf("hand-off %d (%d bytes, %d with its successors) matches the input at more than one place behind a truncated frame", k, len(m), len(needle))
 				}
 				cuts[k-1] = start
 			}
